@@ -105,6 +105,11 @@ def r2(ck, repo):
 
 
 def _rest(ck, repo):
+    # which list / non-null layer a failure stops at is decided by the chain get_output_coercer builds: each list layer must be
+    # told its own item type, each non-null layer must be a non-null coercer, outermost first (C01.R9)
+    with ck.pinned("R9"):
+        from .c01 import _completion_chain
+        _completion_chain(ck, repo)
     with ck.rule("R3"):
         f = repo.func("tartiflette/coercers/outputs/non_null_coercer.py", "non_null_coercer")
         fv = FuncView(f)
